@@ -15,7 +15,7 @@ from . import signals
 
 PID = 'C07'
 TIMEOUT = 120.0
-RULE = ('spec: each signal runs every k-th point of the 2592-point mask configuration grid with a rotating offset '
+RULE = ('spec: each signal runs every k-th point of the 3888-point mask configuration grid (x 4 option sets rotating with the grid index) with a rotating offset '
         '(union over signals covers the grid); single: get_next_imf_mask over a frequency x amplitude x nphases grid; '
         'sched: every canonical chunk->worker assignment per (nphases, nprocesses); non-trivial = result has >= 2 IMFs '
         '(spec) / schedule uses >= 2 workers (sched)')
@@ -27,14 +27,18 @@ ASSUMPTIONS = ['the specification uses emd.sift.get_next_imf (captured before in
 
 SOURCES = ('zc', 'if', 0.3, 0.12, 'list3', 'list1')
 MODES = ('abs', 'ratio_sig', 'ratio_imf')
-AMPKIND = ('scalar', 'array')
+AMPKIND = ('scalar', 'array', 'zero')
+OPTSETS = (None,
+           {'envelope_opts': {'interp_method': 'mono_pchip'}},
+           {'extrema_opts': {'parabolic_extrema': True, 'pad_width': 3}},
+           {'imf_opts': {'stop_method': 'fixed', 'max_iters': 2}, 'extrema_opts': {'pad_width': 1}})
 STEPS = (2, 3, 1.5)
 NPH = (1, 2, 3, 4, 5, 6, 7, 8)
 CAPS = (1, 3, 9)
 GRID = list(itertools.product(SOURCES, MODES, AMPKIND, STEPS, NPH, CAPS))
 LIST3 = (0.3, 0.11, 0.04)
 LIST1 = (0.2,)
-AMPARRAY = (1.0, 0.5, 2.0, 0.75, 1.5, 0.25, 1.25, 0.6, 0.9)
+AMPARRAY = (1.0, 0.0, 2.0, 0.75, 0.0, 0.25, 1.25, 0.6, 0.9)    # per-IMF amplitudes, two layers with a zero mask
 
 _orig = {}
 
@@ -108,7 +112,7 @@ def signal_of(case):
     return signals.fb_signal(case[2], case[4])
 
 
-def spec_mask_imf(r, z, amp, nph, imf_opts=None):
+def spec_mask_imf(r, z, amp, nph, opts=None):
     """One masked IMF from the statement: mean over phases of extraction(signal + mask) - mask."""
     gni = _orig['gni']
     N = r.shape[0]
@@ -117,15 +121,16 @@ def spec_mask_imf(r, z, amp, nph, imf_opts=None):
     flags = []
     for p in range(nph):
         m = (amp * np.cos(2 * np.pi * z * t + 2 * np.pi * p / nph))[:, None]
-        imf, flag = gni(r + m, **(imf_opts or {}))
+        o = opts or {}
+        imf, flag = gni(r + m, envelope_opts=o.get('envelope_opts'), extrema_opts=o.get('extrema_opts'), **(o.get('imf_opts') or {}))
         acc += imf - m
         flags.append(flag)
     return acc / nph, any(flags)
 
 
-def spec_first_freq(X, source):
+def spec_first_freq(X, source, opts=None):
     if source in ('zc', 'if'):
-        imf, _ = _orig['gni'](X)
+        imf, _ = _orig['gni'](X, **((opts or {}).get('imf_opts') or {}))
         if source == 'zc':
             nz = int((np.diff(np.sign(imf[:, 0])) != 0).sum())
             return nz / imf.shape[0] / 4
@@ -135,39 +140,53 @@ def spec_first_freq(X, source):
     return source
 
 
-def spec_mask_sift(x, source, mode, ampkind, step, nph, cap, sift_thresh=1e-8):
+def spec_freqs(x, source, step, cap, opts=None):
     X = x[:, None].astype(float)
     if source == 'list3':
-        freqs = np.array(LIST3)
-        cap = min(cap, 3)
-    elif source == 'list1':
-        freqs = np.array(LIST1)
-        cap = min(cap, 1)
-    else:
-        z0 = spec_first_freq(X, source)
-        freqs = np.array([z0 / step ** k for k in range(cap)])
-    cols = []
-    k = 0
-    while True:
-        r = X - (np.sum(cols, axis=0) if cols else 0)
+        return np.array(LIST3), min(cap, 3)
+    if source == 'list1':
+        return np.array(LIST1), min(cap, 1)
+    z0 = spec_first_freq(X, source, opts)
+    return np.array([z0 / step ** k for k in range(cap)]), cap
+
+
+def spec_compare(x, got, source, mode, ampkind, step, nph, cap, sift_thresh=1e-8, opts=None):
+    """Layer-by-layer comparison with the masking rule.
+
+    Layer k of the specification is computed from the residual built from the implementation's OWN first k columns,
+    so one-ulp differences cannot be amplified from layer to layer (an unmasked layer sifts a smooth residual whose only
+    extrema are rounding noise - that is inherently ill-conditioned).  Returns (problem | None, n_layers, freqs)."""
+    X = x[:, None].astype(float)
+    freqs, cap = spec_freqs(x, source, step, cap, opts)
+    scale = 1e-10 * (1 + np.max(np.abs(x)))
+    ncols = got.shape[1]
+    for k in range(ncols):
+        r = X - got[:, :k].sum(axis=1)[:, None]
         if mode == 'abs':
             s = 1.0
         elif mode == 'ratio_sig' or k == 0:
             s = X.std()
         else:
-            s = cols[-1].std()
-        a = (AMPARRAY[k] if ampkind == 'array' else 0.8) * s
-        imf, flag = spec_mask_imf(r, freqs[k], a, nph)
-        cols.append(imf)
-        k += 1
-        if not flag or k == cap or np.abs(imf).sum() < sift_thresh:
-            break
-    return np.concatenate(cols, axis=1), freqs
+            s = got[:, k - 1].std()
+        a = (AMPARRAY[k] if ampkind == 'array' else (0.0 if ampkind == 'zero' else 0.8)) * s
+        imf, flag = spec_mask_imf(r, freqs[k], a, nph, opts)
+        err = np.max(np.abs(imf[:, 0] - got[:, k]))
+        if not err <= scale:
+            return ('value:first-bad-col=%s%s' % ('0' if k == 0 else 'later', ':zero-amp' if a == 0 else ''),
+                    'column %d differs from the masking rule (max diff %.3g)' % (k, err)), k, freqs
+        stop = (not flag) or (k + 1 == cap) or np.abs(imf).sum() < sift_thresh
+        if stop and k + 1 < ncols:
+            return ('columns', 'the rule ends the sift after %d columns, result has %d' % (k + 1, ncols)), k, freqs
+        if not stop and k + 1 == ncols:
+            return ('columns', 'the rule continues after column %d but the result has only %d columns' % (k, ncols)), k, freqs
+    return None, ncols, freqs
 
 
-def impl_kwargs(source, mode, ampkind, step, nph, cap):
+def impl_kwargs(source, mode, ampkind, step, nph, cap, opts=None):
     kw = dict(mask_amp_mode=mode, mask_step_factor=step, nphases=nph, max_imfs=cap, ret_mask_freq=True)
-    kw['mask_amp'] = np.array(AMPARRAY) if ampkind == 'array' else 0.8
+    import copy
+    kw.update(copy.deepcopy(opts or {}))
+    kw['mask_amp'] = np.array(AMPARRAY) if ampkind == 'array' else (0 if ampkind == 'zero' else 0.8)
     if source == 'list3':
         kw['mask_freqs'] = np.array(LIST3)
     elif source == 'list1':
@@ -194,34 +213,42 @@ def check_spec(case):
     x = signal_of(case)
     N = len(x)
     source, mode, ampkind, step, nph, cap = GRID[case[3]]
-    tag = 'x=%s mask_freqs=%r mode=%s amp=%s step=%g nphases=%d max_imfs=%d' % (
-        x.tolist() if N <= 12 else 'F_B%r' % (case[2],), source, mode, ampkind, step, nph, cap)
-    try:
-        with np.errstate(all='ignore'):
-            want, wfreq = spec_mask_sift(x, source, mode, ampkind, step, nph, cap)
-        if not (np.all(np.isfinite(want)) and np.all(np.isfinite(wfreq))):
-            return Outcome(cls='spec-skipped', nontrivial=False)
-    except EMDSiftCovergeError:
-        return Outcome(cls='spec-skipped', nontrivial=False)
-    except Exception:
-        return Outcome(cls='spec-skipped', nontrivial=False)
+    opts = OPTSETS[(case[3] // 7) % len(OPTSETS)]
+    tag = 'x=%s mask_freqs=%r mode=%s amp=%s step=%g nphases=%d max_imfs=%d options=%r' % (
+        x.tolist() if N <= 12 else 'F_B%r' % (case[2],), source, mode, ampkind, step, nph, cap, opts)
     viols = []
     try:
-        got, gfreq = _orig['mask_sift'](x.copy(), **impl_kwargs(source, mode, ampkind, step, nph, cap))
+        got, gfreq = _orig['mask_sift'](x.copy(), **impl_kwargs(source, mode, ampkind, step, nph, cap, opts))
+    except EMDSiftCovergeError:
+        return Outcome(cls='spec-skipped', nontrivial=False)
     except Exception as e:
+        # only a violation if the specification itself can be evaluated for this configuration
+        try:
+            with np.errstate(all='ignore'):
+                f_, c_ = spec_freqs(x, source, step, cap, opts)
+                ok_spec = bool(np.all(np.isfinite(f_)))
+                if ok_spec:
+                    spec_mask_imf(x[:, None].astype(float), f_[0], 0.8, nph, opts)
+        except Exception:
+            ok_spec = False
+        if not ok_spec:
+            return Outcome(cls='spec-skipped', nontrivial=False)
         return Outcome(cls='raise', viols=[('spec:raise:%s' % type(e).__name__, '%s raised %r' % (tag, e))])
     got = np.asarray(got)
     gfreq = np.asarray(gfreq, dtype=float)
-    n = want.shape[1]
-    scale = 1e-10 * (1 + np.max(np.abs(x)))
-    if got.shape != want.shape:
-        viols.append(('spec:columns', '%s: %r columns, specification has %r' % (tag, got.shape, want.shape)))
-    elif not np.max(np.abs(got - want)) <= scale:
-        col = int(np.argmax(np.max(np.abs(got - want), axis=0)))
-        viols.append(('spec:value:first-bad-col=%s' % ('0' if col == 0 else 'later'),
-                      '%s: output differs from the masking rule, first at column %d (max diff %.3g)' % (tag, col, np.max(np.abs(got - want)))))
-    if len(gfreq) < n or not np.allclose(gfreq[:len(wfreq)], wfreq, rtol=1e-12, atol=0):
+    if got.ndim != 2 or got.shape[0] != N or not np.all(np.isfinite(got)):
+        return Outcome(cls='spec-skipped' if got.ndim == 2 and got.shape[0] == N else 'shape', nontrivial=False,
+                       viols=[] if got.ndim == 2 and got.shape[0] == N else [('spec:shape', '%s: result shape %r' % (tag, got.shape))])
+    try:
+        with np.errstate(all='ignore'):
+            bad, n, wfreq = spec_compare(x, got, source, mode, ampkind, step, nph, cap, opts=opts)
+    except EMDSiftCovergeError:
+        return Outcome(cls='spec-skipped', nontrivial=False)
+    if bad:
+        viols.append(('spec:%s' % bad[0], '%s: %s' % (tag, bad[1])))
+    if len(gfreq) < got.shape[1] or not np.allclose(gfreq[:len(wfreq)], wfreq[:len(gfreq)], rtol=1e-12, atol=0):
         viols.append(('spec:mask-freqs', '%s: returned mask frequencies %s, rule gives %s' % (tag, gfreq.tolist(), wfreq.tolist())))
+    n = got.shape[1]
     return Outcome(cls='spec:%s' % ('multi' if n >= 2 else 'single'), transitions=n * nph + 1, viols=viols, nontrivial=n >= 2)
 
 
@@ -289,16 +316,16 @@ def check_sched(case):
     sched = [list(r) for r in par[2:]]
     tag = '%s F_B%r nphases=%d nprocesses=%d schedule=%s' % (kind, case[2], nph, P, sched)
 
-    def body():
+    def body(nproc=P):
         if kind == 'sched1':
-            r, f = S.get_next_imf_mask(x[:, None].copy(), 0.15, 0.6, nphases=nph, nprocesses=P)
+            r, f = S.get_next_imf_mask(x[:, None].copy(), 0.15, 0.6, nphases=nph, nprocesses=nproc)
             return np.asarray(r)
-        return np.asarray(S.mask_sift(x.copy(), mask_freqs=0.25, mask_amp_mode='ratio_sig', nphases=nph, nprocesses=P, max_imfs=2))
+        return np.asarray(S.mask_sift(x.copy(), mask_freqs=0.25, mask_amp_mode='ratio_sig', nphases=nph, nprocesses=nproc, max_imfs=2))
     key = (kind, case[2], nph, case[4])
     if key not in _serial_cache:
         del forkpool.TRACE[:]
         with forkpool.installed(forkpool.SerialMP()):
-            ref = body()
+            ref = body(1)     # the reference is the single-process run
         _serial_cache[key] = (ref, sorted(forkpool.TRACE))
         del forkpool.TRACE[:]
     ref, ref_args = _serial_cache[key]
